@@ -122,17 +122,29 @@ type gctx struct {
 	r      *vproto.Rng
 	tol    float64
 	dyadic bool
+	// coarse: LARGE coordinates (2^24..2^40) on a 2^-10 lattice with a tiny tolerance (2^-30, 2^-20,
+	// 1e-9): a-b is still exact (0 or a multiple of 2^-10) while a±tol is not representable
+	coarse bool
+	unit   float64
 	// set once perturb() has run: later displacements must exceed tol + 63/64 tol
 	perturbed bool
 	cell      int
 	ox, oy float64
 }
 
+// lattice unit: the tolerance, except in coarse mode
+func (g *gctx) u() float64 {
+	if g.coarse {
+		return g.unit
+	}
+	return g.tol
+}
+
 // every member (point list) lives in its own cell of 256 tol; vertices sit on a 16-tol lattice
 func (g *gctx) newCell() (float64, float64) {
 	c := g.cell
 	g.cell++
-	return g.ox + float64(c%64)*256*g.tol, g.oy + float64(c/64)*256*g.tol
+	return g.ox + float64(c%64)*256*g.u(), g.oy + float64(c/64)*256*g.u()
 }
 
 func (g *gctx) lattice(n int) []geom.Point {
@@ -145,7 +157,7 @@ func (g *gctx) lattice(n int) []geom.Point {
 			continue
 		}
 		used[k] = true
-		ps = append(ps, geom.Point{X: x0 + float64(k%14+1)*16*g.tol, Y: y0 + float64(k/14+1)*16*g.tol})
+		ps = append(ps, geom.Point{X: x0 + float64(k%14+1)*16*g.u(), Y: y0 + float64(k/14+1)*16*g.u()})
 	}
 	return ps
 }
@@ -173,8 +185,8 @@ func (g *gctx) ring() *node {
 		x0, y0 := g.newCell()
 		a, b := g.r.Range(1, 6), g.r.Range(8, 14)
 		c, d := g.r.Range(1, 6), g.r.Range(8, 14)
-		xa, xb := x0+float64(a)*16*g.tol, x0+float64(b)*16*g.tol
-		ya, yb := y0+float64(c)*16*g.tol, y0+float64(d)*16*g.tol
+		xa, xb := x0+float64(a)*16*g.u(), x0+float64(b)*16*g.u()
+		ya, yb := y0+float64(c)*16*g.u(), y0+float64(d)*16*g.u()
 		cyc = []geom.Point{{X: xa, Y: ya}, {X: xb, Y: ya}, {X: xb, Y: yb}, {X: xa, Y: yb}}
 		if g.r.Bool() {
 			cyc[1], cyc[3] = cyc[3], cyc[1]
@@ -191,9 +203,11 @@ func (g *gctx) ring() *node {
 			}
 		}
 		o := (lo + 1 + g.r.Intn(len(cyc)-1)) % len(cyc)
-		cyc[o].X = cyc[lo].X + g.tol/2
+		if !g.coarse {
+			cyc[o].X = cyc[lo].X + g.tol/2
+		}
 		if cyc[o].Y == cyc[lo].Y {
-			cyc[o].Y += 32 * g.tol
+			cyc[o].Y += 32 * g.u()
 		}
 	default:
 		cyc = g.lattice(g.r.Range(3, 8))
@@ -308,6 +322,9 @@ func (g *gctx) base0(kind, depth int) *node {
 // perturbation strictly inside the tolerance: |d| <= 63/64 tol on dyadic grids (exact arithmetic),
 // |d| <= 57/64 tol otherwise (rounding of a-b stays far from the comparison)
 func (g *gctx) small() float64 {
+	if g.coarse { // the lattice unit is far above tol: only the zero perturbation is < tol and exact
+		return 0
+	}
 	m := 57
 	if g.dyadic {
 		m = 63
@@ -370,6 +387,9 @@ func (g *gctx) big() float64 {
 	}
 	if g.r.Bool() {
 		m = -m
+	}
+	if g.coarse {
+		return m * g.unit
 	}
 	return m * g.tol
 }
@@ -579,6 +599,79 @@ func (g *gctx) changeType(n *node) bool {
 	return true
 }
 
+// two polygons that are members of the same multi-polygon or collection
+func (g *gctx) siblingPolygons(n *node) (p, q *node) {
+	type pair struct{ p, q *node }
+	var ps []pair
+	n.walk(func(m *node) {
+		if m.kind != kMPG && m.kind != kGC {
+			return
+		}
+		for i, a := range m.kids {
+			for j, b := range m.kids {
+				if i != j && a.kind == kPG && b.kind == kPG {
+					ps = append(ps, pair{a, b})
+				}
+			}
+		}
+	})
+	if len(ps) == 0 {
+		return nil, nil
+	}
+	c := ps[g.r.Intn(len(ps))]
+	return c.p, c.q
+}
+
+// move one ring of a member polygon to a sibling polygon: same polygon count, same rings in
+// total, different owner (not a mere reordering: excluded when it only swaps {r} with {})
+func (g *gctx) moveRing(n *node) bool {
+	p, q := g.siblingPolygons(n)
+	if p == nil || len(p.kids) == 0 || (len(p.kids) == 1 && len(q.kids) == 0) {
+		return false
+	}
+	i := g.r.Intn(len(p.kids))
+	r := p.kids[i]
+	p.kids = append(p.kids[:i:i], p.kids[i+1:]...)
+	j := g.r.Intn(len(q.kids) + 1)
+	q.kids = append(q.kids[:j:j], append([]*node{r}, q.kids[j:]...)...)
+	return true
+}
+
+// exchange one ring each between two sibling polygons (ring counts of all members unchanged)
+func (g *gctx) swapRings(n *node) bool {
+	p, q := g.siblingPolygons(n)
+	if p == nil || len(p.kids) == 0 || len(q.kids) == 0 || (len(p.kids) == 1 && len(q.kids) == 1) {
+		return false
+	}
+	i, j := g.r.Intn(len(p.kids)), g.r.Intn(len(q.kids))
+	p.kids[i], q.kids[j] = q.kids[j], p.kids[i]
+	return true
+}
+
+// a multi-polygon (or a collection of polygons, or a collection holding the multi-polygon) whose
+// member polygons have 1..3 rings each
+func (g *gctx) ringOwners(kind int) *node {
+	mk := func(k int) *node {
+		n := &node{kind: k}
+		for i, c := 0, g.r.Range(2, 3); i < c; i++ {
+			pg := &node{kind: kPG}
+			for j, d := 0, g.r.Range(1, 3); j < d; j++ {
+				pg.kids = append(pg.kids, g.ring())
+			}
+			n.kids = append(n.kids, pg)
+		}
+		return n
+	}
+	switch kind {
+	case 0:
+		return mk(kMPG)
+	case 1:
+		return mk(kGC)
+	default:
+		return &node{kind: kGC, kids: []*node{g.base(kP, 0), mk(kMPG), g.base(kLS, 0)}}
+	}
+}
+
 func (g *gctx) duplicateMember(n *node) bool {
 	m := g.pick(n.collect(func(m *node) bool { return isContainer(m) && len(m.kids) > 0 }))
 	if m == nil {
@@ -602,7 +695,9 @@ func (g *gctx) pinchedCases(out *bufio.Writer) {
 	P := v[0]
 	P2 := P
 	if g.r.Bool() { // second visit within tol/4 of the first instead of bit-identical
-		P2 = geom.Point{X: P.X + g.tol/4, Y: P.Y - g.tol/4}
+		if !g.coarse {
+			P2 = geom.Point{X: P.X + g.tol/4, Y: P.Y - g.tol/4}
+		}
 	}
 	var cyc []geom.Point
 	switch g.r.Intn(3) {
@@ -625,7 +720,7 @@ func (g *gctx) pinchedCases(out *bufio.Writer) {
 	for disp[di] == P || disp[di] == P2 || (di < len(cyc) && (cyc[di] == P || cyc[di] == P2)) {
 		di = (di + 1) % len(disp)
 	}
-	disp[di].Y += 3 * g.tol
+	disp[di].Y += 3 * g.u()
 	other, other2 := g.ring(), g.ring()
 	for i := range cyc {
 		for j := range cyc {
@@ -653,10 +748,10 @@ func (g *gctx) pinchedCases(out *bufio.Writer) {
 func (g *gctx) bigPts(n int) []geom.Point {
 	row := g.cell/64 + 1
 	g.cell = (row + 2) * 64
-	x0, y0 := g.ox, g.oy+float64(row)*256*g.tol
+	x0, y0 := g.ox, g.oy+float64(row)*256*g.u()
 	ps := make([]geom.Point, n)
 	for t := range ps {
-		ps[t] = geom.Point{X: x0 + float64(t+1)*16*g.tol, Y: y0 + float64((t*7)%13+1)*16*g.tol}
+		ps[t] = geom.Point{X: x0 + float64(t+1)*16*g.u(), Y: y0 + float64((t*7)%13+1)*16*g.u()}
 	}
 	return ps
 }
@@ -801,6 +896,13 @@ func gen(seed uint64, tier string) {
 			g.tol = nd[r.Intn(len(nd))]
 			g.ox, g.oy = float64(r.Range(-40, 40))*64.3*g.tol, float64(r.Range(-40, 40))*63.7*g.tol
 		}
+		if it%7 == 3 {
+			g.coarse, g.dyadic, g.unit = true, true, 1.0/1024
+			g.tol = []float64{1.0 / (1 << 30), 1.0 / (1 << 20), 1e-9, 1e-9}[r.Intn(4)]
+			mag := float64(uint64(1) << uint(r.Range(24, 40)))
+			g.ox = (mag + float64(r.Range(0, 1<<20))/1024) * float64(1-2*r.Intn(2))
+			g.oy = (mag/2 + float64(r.Range(0, 1<<20))/1024) * float64(1-2*r.Intn(2))
+		}
 		kind := it % 8
 		a := g.base(kind, 2)
 		ag := a.geom()
@@ -826,6 +928,25 @@ func gen(seed uint64, tier string) {
 		do("vinsert:F", g.insertVertex)
 		do("vdelete:F", g.deleteVertex)
 		do("type:F", g.changeType)
+		do("ringmove:F", g.moveRing)
+		do("ringswap:F", g.swapRings)
+		do("ringmove:F", func(b *node) bool { g.permute(b); g.rotate(b); g.perturb(b); return g.moveRing(b) })
+		if it%8 == 5 || it%8 == 6 {
+			a2 := g.ringOwners(g.r.Intn(3))
+			a2g := a2.geom()
+			for _, f := range []struct {
+				tag string
+				f   func(*node) bool
+			}{{"ringmove:F", g.moveRing}, {"ringswap:F", g.swapRings},
+				{"ringswap:F", func(b *node) bool { g.permute(b); g.rotate(b); g.perturb(b); return g.swapRings(b) }},
+				{"combo:T", func(b *node) bool { g.permute(b); g.rotate(b); g.perturb(b); return true }}} {
+				g.perturbed = false
+				b := a2.clone()
+				if f.f(b) && atMostOneVertexless(b) {
+					emit(out, f.tag, g.tol, a2g, b.geom())
+				}
+			}
+		}
 		do("dup:?", g.duplicateMember)
 		do("dup:?", func(b *node) bool {
 			if !g.duplicateMember(b) {
@@ -847,7 +968,7 @@ func gen(seed uint64, tier string) {
 				n := g.r.Intn(4)
 				ps := make([]geom.Point, n)
 				for i := range ps {
-					ps[i] = geom.Point{X: g.ox + float64(g.r.Intn(2))*4*g.tol, Y: g.oy + float64(g.r.Intn(2))*4*g.tol}
+					ps[i] = geom.Point{X: g.ox + float64(g.r.Intn(2))*4*g.u(), Y: g.oy + float64(g.r.Intn(2))*4*g.u()}
 				}
 				return ps
 			}
